@@ -11,6 +11,14 @@ MODULES = {
     "C15": ("checks.capi_tv", "C15"),
     "C04": ("checks.alloc", "C04"),
     "C12": ("checks.alloc", "C12"),
+    "C01": ("checks.wrun", "C01"),
+    "C03": ("checks.wrun", "C03"),
+    "C05": ("checks.wrun", "C05"),
+    "C06": ("checks.wrun", "C06"),
+    "C08": ("checks.wrun", "C08"),
+    "C09": ("checks.wrun", "C09"),
+    "C10": ("checks.wrun", "C10"),
+    "C11": ("checks.wrun", "C11"),
 }
 
 
